@@ -4,11 +4,11 @@ import (
 	"strings"
 	"time"
 
-	ws "github.com/gorilla/websocket"
 	"github.com/zishang520/engine.io-go-parser/packet"
 	"github.com/zishang520/engine.io/v2/config"
 	"github.com/zishang520/engine.io/v2/transports"
 	"github.com/zishang520/engine.io/v2/types"
+	"github.com/zishang520/engine.io/v2/internal/zzmodels"
 	verif "github.com/zishang520/engine.io/v2/internal/zzverif"
 )
 
@@ -216,16 +216,6 @@ func VerifH_C08_session_closes_during_upgrade() {
 	})
 }
 
-var wsCloseCalls int
-
-// In symbolic runs the gorilla connection is absent: its Close is a recorder.
-//
-//verif:model (*github.com/gorilla/websocket.Conn).Close
-func mWsConnClose(c *ws.Conn) error {
-	wsCloseCalls++
-	return nil
-}
-
 // callOnWebSocket runs the server's upgrade gate for a connection object that has no
 // network connection behind it; natively closing such a connection panics inside the
 // library, which is reported as closed=true.
@@ -237,9 +227,9 @@ func callOnWebSocket(ps *protoServer, ctx *types.HttpContext, wsc *types.WebSock
 			}
 		}()
 	}
-	before := wsCloseCalls
+	before := zzmodels.WsCloseCalls
 	ps.onWebSocket(ctx, wsc)
-	return wsCloseCalls > before
+	return zzmodels.WsCloseCalls > before
 }
 
 // VerifH_C08_gate: a WebSocket candidate naming an unknown, an upgrading, an already
